@@ -38,6 +38,9 @@ pub struct Cfg {
     pub funded: bool,
     pub amount: u128,
     pub case_index: u64,
+    /// vault only: set the three flags with three separate partial updates, in this order (0..6)
+    #[serde(default)]
+    pub partial_order: Option<u8>,
 }
 
 #[derive(Serialize, Deserialize, Clone, Debug, PartialEq)]
@@ -168,7 +171,31 @@ impl Toggle {
         let msg = match self.cfg.target {
             Target::PairCp | Target::PairStable => wasm_exec(&self.pool_factory, &factory::ExecuteMsg::UpdatePairConfig { pair_addr: self.pair.clone(), owner: None, fee_collector_addr: None, pool_fees: None, feature_toggle: Some(pair::FeatureToggle { withdrawals_enabled: w, deposits_enabled: d, swaps_enabled: s }) }, vec![]),
             Target::Trio => wasm_exec(&self.pool_factory, &factory::ExecuteMsg::UpdateTrioConfig { trio_addr: self.trio.clone(), owner: None, fee_collector_addr: None, pool_fees: None, feature_toggle: Some(trio::FeatureToggle { withdrawals_enabled: w, deposits_enabled: d, swaps_enabled: s }), amp_factor: None }, vec![]),
-            Target::Vault => wasm_exec(&self.vault_factory, &vault_factory::ExecuteMsg::UpdateVaultConfig { vault_addr: self.vault.clone(), params: vault::UpdateConfigParams { flash_loan_enabled: Some(s), deposit_enabled: Some(d), withdraw_enabled: Some(w), new_owner: None, new_vault_fees: None, new_fee_collector_addr: None } }, vec![]),
+            Target::Vault => {
+                if let Some(order) = self.cfg.partial_order {
+                    // three partial updates, one flag each; an update must not touch the other flags
+                    const P: [[usize; 3]; 6] = [[0, 1, 2], [0, 2, 1], [1, 0, 2], [1, 2, 0], [2, 0, 1], [2, 1, 0]];
+                    let mut last = None;
+                    for which in P[(order % 6) as usize] {
+                        let params = vault::UpdateConfigParams {
+                            flash_loan_enabled: if which == 2 { Some(s) } else { None },
+                            deposit_enabled: if which == 0 { Some(d) } else { None },
+                            withdraw_enabled: if which == 1 { Some(w) } else { None },
+                            new_owner: None,
+                            new_vault_fees: None,
+                            new_fee_collector_addr: None,
+                        };
+                        let m = wasm_exec(&self.vault_factory, &vault_factory::ExecuteMsg::UpdateVaultConfig { vault_addr: self.vault.clone(), params }, vec![]);
+                        let r = tx(&mut self.app, OWNER, vec![m], Fault::None);
+                        if !r.outcome.is_ok() {
+                            return r;
+                        }
+                        last = Some(r);
+                    }
+                    return last.unwrap();
+                }
+                wasm_exec(&self.vault_factory, &vault_factory::ExecuteMsg::UpdateVaultConfig { vault_addr: self.vault.clone(), params: vault::UpdateConfigParams { flash_loan_enabled: Some(s), deposit_enabled: Some(d), withdraw_enabled: Some(w), new_owner: None, new_vault_fees: None, new_fee_collector_addr: None } }, vec![])
+            }
         };
         tx(&mut self.app, OWNER, vec![msg], Fault::None)
     }
@@ -198,7 +225,9 @@ impl Scenario for Toggle {
             2 => Target::Trio,
             _ => Target::Vault,
         };
-        Cfg { target, bits: ((i / 2) % 8) as u8, funded: i % 2 == 1, amount: rng.range128(200_000, 5_000_000_000), case_index: i }
+        let amount = rng.range128(200_000, 5_000_000_000);
+        let partial_order = if rng.chance(1, 2) { Some(rng.below(6) as u8) } else { None };
+        Cfg { target, bits: ((i / 2) % 8) as u8, funded: i % 2 == 1, amount, case_index: i, partial_order }
     }
 
     fn max_steps(_cfg: &Cfg) -> usize {
@@ -319,6 +348,19 @@ impl Scenario for Toggle {
                     let want = [self.cfg.bits & 1 != 0, self.cfg.bits & 2 != 0, self.cfg.bits & 4 != 0];
                     if self.flags() != Some(want) {
                         ctx.fail("C17", "toggle_update", "flags_not_stored", None, format!("flags {:?} after setting {:?}", self.flags(), want));
+                    }
+                    // an unrelated configuration update must leave the flags alone
+                    let f = fee3();
+                    let msg = match self.cfg.target {
+                        Target::PairCp | Target::PairStable => wasm_exec(&self.pool_factory, &factory::ExecuteMsg::UpdatePairConfig { pair_addr: self.pair.clone(), owner: None, fee_collector_addr: Some(COLLECTOR.into()), pool_fees: Some(pair::PoolFee { protocol_fee: f[0].clone(), swap_fee: f[1].clone(), burn_fee: f[2].clone() }), feature_toggle: None }, vec![]),
+                        Target::Trio => wasm_exec(&self.pool_factory, &factory::ExecuteMsg::UpdateTrioConfig { trio_addr: self.trio.clone(), owner: None, fee_collector_addr: Some(COLLECTOR.into()), pool_fees: Some(trio::PoolFee { protocol_fee: f[0].clone(), swap_fee: f[1].clone(), burn_fee: f[2].clone() }), feature_toggle: None, amp_factor: None }, vec![]),
+                        Target::Vault => wasm_exec(&self.vault_factory, &vault_factory::ExecuteMsg::UpdateVaultConfig { vault_addr: self.vault.clone(), params: vault::UpdateConfigParams { flash_loan_enabled: None, deposit_enabled: None, withdraw_enabled: None, new_owner: None, new_vault_fees: Some(VaultFee { protocol_fee: f[0].clone(), flash_loan_fee: f[1].clone(), burn_fee: f[2].clone() }), new_fee_collector_addr: Some(COLLECTOR.into()) } }, vec![]),
+                    };
+                    let r = tx(&mut self.app, OWNER, vec![msg], Fault::None);
+                    if !r.outcome.is_ok() {
+                        ctx.fail("C17", "toggle_update", "unrelated_update_failed", None, r.outcome.err_text());
+                    } else if self.flags() != Some(want) {
+                        ctx.fail("C17", "toggle_update", "flags_changed_by_unrelated_update", None, format!("flags {:?} after a fee-only update, expected {:?}", self.flags(), want));
                     }
                 }
                 self.cfg.bits
